@@ -298,6 +298,7 @@ func (c *tunnelChannel) newStream(ctx context.Context, clientStreams, serverStre
 	if err != nil {
 		return nil, err
 	}
+	verifYield("client.allocated")
 	err = c.stream.Send(&tunnelpb.ClientToServer{
 		StreamId: str.streamID,
 		Frame: &tunnelpb.ClientToServer_NewStream{
@@ -866,6 +867,7 @@ func (st *tunnelClientStream) finishStream(err error, trailers metadata.MD) bool
 		// done already set? then RPC already finished
 		return false
 	}
+	verifYield("client.finishing")
 	defer st.cancel()
 	st.ch.removeStream(st.streamID)
 	// Closing the receiver is what lets a blocked RecvMsg return the final
